@@ -511,7 +511,9 @@ def c10_cases(tier, seed):
     cs = api_docs(tier, seed, "ncptadlog")
     cs += [Case("<e>é</e>", "ncptadlog", True, meta={"gen": "nonascii"}),
            Case("<e>\n中\n😀é\n</e>", "ncptadlog", True, meta={"gen": "nonascii"}),
-           Case("<e>р–À…😀</e>", "ncptadlog", True, meta={"gen": "continuation-bytes"})]
+           Case("<e>р–À…😀</e>", "ncptadlog", True, meta={"gen": "continuation-bytes"}),
+           Case("<n:e xmlns:n='a&#10;b'/>", "ncptadlog", True, meta={"gen": "lf-in-uri"}),
+           Case("<e xmlns='a&#10;b' xmlns:n='c&#10;&#10;d' n:x='1'><n:f/></e>", "ncptadlog", True, meta={"gen": "lf-in-uri"})]
     cs += gens.g_long_nonascii(flags="ncptalg", totals=(127, 128, 255, 256, 511, 512, 513))
     # (text_pos_at for every offset is quadratic: larger sizes without the position sweep)
     cs += gens.g_long_nonascii(flags="ncpalg", totals=(1024, 4096) if q else (1024, 4096, 65535, 65536))
@@ -1006,23 +1008,23 @@ defprop("C02", "proof", {"R", "N"}, lambda t, s: tree_cases(t, s, "n"), oracle=o
         nontrivial=lambda c, l: rxlib.result_class(l) == "ok" and int(l[0].split(" ")[2]) >= 4,
         rule="exhaustive token strings x 6 entity tables (plain and wrapped in a root), random documents with hoisting, fixtures, entity graphs, mutations; non-trivial = accepted with >= 4 nodes; distinct by link table",
         technique="Coq proof of the arena/tree invariant + correspondence")
-defprop("C03", "other", {"R", "N", "Q", "K", "C"}, c03_cases, oracle=oracles.o_expected_content(("Q", "K", "C")),
+defprop("C03", "proof", {"R", "N", "Q", "K", "C"}, c03_cases, oracle=oracles.o_expected_content(("Q", "K", "C")),
         rule="random abstract documents x 4..8 renderings (layout, quotes, BOM, declaration, DOCTYPE forms), fixtures; non-trivial = accepted; distinct by dump",
         technique="Coq model + lexer/builder lemmas (partial) + three-way correspondence (impl / model / reference semantics)")
-defprop("C04", "other", {"R", "N", "X"}, c04_cases, oracle=all_oracles(oracles.o_text_pieces, oracles.o_expected_content(("X",))),
+defprop("C04", "proof", {"R", "N", "X"}, c04_cases, oracle=all_oracles(oracles.o_text_pieces, oracles.o_expected_content(("X",))),
         rule="exhaustive piece sequences over a 19-piece alphabet at three sibling positions + sampled longer ones + random documents; non-trivial = accepted; distinct by dump",
         technique="Coq proof of the text decoding machine + correspondence")
-defprop("C05", "other", {"R", "A"}, c05_cases, oracle=all_oracles(oracles.o_attr_pieces, oracles.o_expected_content(("A",)), oracles.o_must_reject),
+defprop("C05", "proof", {"R", "A"}, c05_cases, oracle=all_oracles(oracles.o_attr_pieces, oracles.o_expected_content(("A",)), oracles.o_must_reject),
         rule="exhaustive attribute-value piece sequences (15 pieces, both quotes), attribute lists of 0..40, random documents; non-trivial = accepted; distinct by dump",
         technique="Coq proof of attribute-value normalisation + correspondence")
-defprop("C06", "other", {"R", "Q", "A", "S"}, c06_cases, oracle=oracles.o_expected_content(("Q", "A", "S")), extra=c06_extra,
+defprop("C06", "proof", {"R", "Q", "A", "S"}, c06_cases, oracle=oracles.o_expected_content(("Q", "A", "S")), extra=c06_extra,
         rule="all trees of <= 2 (quick) / 3 (thorough) elements x 7 declaration choices x 4 prefixes, declaration pairs, prefixed attributes, random documents; non-trivial = accepted; distinct by dump",
         technique="Coq proof of scope refinement + correspondence")
-defprop("C07", "other", {"R", "N", "Q", "A", "S", "K", "C", "X"}, c07_cases, oracle=all_oracles(oracles.o_expected_content(oracles.CONTENT), oracles.o_wf_tree),
+defprop("C07", "proof", {"R", "N", "Q", "A", "S", "K", "C", "X"}, c07_cases, oracle=all_oracles(oracles.o_expected_content(oracles.CONTENT), oracles.o_wf_tree),
         rule="random documents, each rendered inline and with random hoistings of content and attribute substrings into (nested, repeated, doubly declared) entities; non-trivial = accepted and uses >= 1 entity",
         nontrivial=lambda c, l: rxlib.result_class(l) == "ok" and b"<!ENTITY" in c.data,
         technique="Coq lemmas (attribute half, builder half; partial) + metamorphic correspondence")
-defprop("C08", "other", {"R"}, c08_cases, oracle=oracles.o_must_reject,
+defprop("C08", "proof", {"R"}, c08_cases, oracle=oracles.o_must_reject,
         nontrivial=lambda c, l: bool(c.meta and (c.meta.get("illformed") or c.meta.get("wellformed"))),
         rule="catalogue of ill-forming constructs, catalogue edits at content positions of generated documents, every truncation before the root end, meta strings, token strings, code points at every table boundary +- 1 and a sample (quick) / every 7th + sample (thorough) in text, name-start and name position; non-trivial = carries an expectation",
         technique="Coq proof of the character tables (translator-tied) + builder rejection lemmas + correspondence")
@@ -1039,7 +1041,7 @@ defprop("C11", "proof", {"R", "N", "AX", "AE", "AH", "AT", "AR", "D"}, lambda t,
 defprop("C12", "proof", {"R", "L", "LQ"}, lambda t, s: api_docs(t, s, "ncl"), oracle=oracles.o_lookups,
         rule="every node x query names {present pairs, same local with no / other / empty namespace, absent, reserved URIs}, prefixes and URIs in scope, attribute equality matrix",
         technique="Coq proof of the lookup functions against enumeration + correspondence")
-defprop("C13", "other", {"R", "P", "PA"}, c13_cases_with_shift, oracle=oracles.o_ranges, relation=c13_relation,
+defprop("C13", "proof", {"R", "P", "PA"}, c13_cases_with_shift, oracle=oracles.o_ranges, relation=c13_relation,
         rule="random documents (layout variation, non-ASCII), DOCTYPE-free for the nesting clauses, entity-expanded for validity, saturation families, shift pairs",
         technique="Coq model with positions + range lemmas (partial) + correspondence + range oracle")
 defprop("C14", "other", {"R", "E", "EV", "TP"}, c14_cases, oracle=oracles.o_positions, relation=c14_relation,
@@ -1055,7 +1057,7 @@ defprop("C16", "proof", {"R", "E", "N", "Q", "A", "S", "K", "C", "X", "P", "PA"}
 defprop("C17", "proof", {"R", "OG", "OC", "OS", "OH", "OI"}, lambda t, s: api_docs(t, s, "no"), oracle=oracles.o_identity,
         rule="two simultaneously live parses of each document: get_node for 0..n+2 and u32::MAX-1, eq/cmp/partial_cmp matrix over 12 nodes, sort of all nodes, HashSet",
         technique="Coq proof of the order axioms on (document, id) keys + correspondence")
-defprop("C18", "other", {"R", "B"}, c18_cases, oracle=oracles.o_borrowed,
+defprop("C18", "proof", {"R", "B"}, c18_cases, oracle=oracles.o_borrowed,
         rule="random documents with and without decoding-forcing constructs, entity-expanded nodes, fast-path families",
         technique="Coq model where a borrowed string is an offset pair + bounds lemmas + correspondence")
 defprop("C19", "translation_validation", {"R", "E", "N", "Q", "A", "S", "K", "C", "X"}, c19_corpus, oracle=None, extra=c19_extra,
@@ -1189,7 +1191,10 @@ def run_property(pid, tier, seed):
     for k in known_for(pid):
         kc = Case(bytes.fromhex(k["input_hex"]), "nc", k.get("allow_dtd", True))
         res = rxlib.run_sharded(harness, ["dump"], [kc], work, "known", nshards=1)[0]
-        if any(l.startswith("E " + k["error"]) for l in res):
+        if k.get("accepted"):
+            if rxlib.result_class(res) == "ok":
+                print("KNOWN-FINDING: property=%s %s" % (pid, k["what"]))
+        elif any(l.startswith("E " + k["error"]) for l in res):
             print("KNOWN-FINDING: property=%s %s" % (pid, k["what"]))
 
     violations = 0
